@@ -20,14 +20,60 @@ namespace Snel.Props.C01
 open Snel.Shard
 
 /-- Recovery is lossless w.r.t. the durable state: for EVERY state (reachable or not), after a
-process kill and restart every row that was in a segment directory or in a WAL file is
-produced by a scan. Durability of an applied event therefore reduces to "its WAL entry or its
-segment row exists at the moment of the crash". -/
+process kill and restart every row that was in a WAL file, or in a segment directory the segment
+index names (any directory while no index file exists), is produced by a scan. Durability of an
+applied event therefore reduces to "its WAL entry or its registered segment row exists at the
+moment of the crash". -/
 theorem C01_restart_recovers_durable_state (s : Shard) (e : Ev)
-    (h : (∃ p ∈ s.segs, e ∈ p.2) ∨ (∃ f ∈ s.wal, e ∈ f.2)) :
+    (h : (∃ p ∈ s.segs, e ∈ p.2 ∧ Served s p.1) ∨ (∃ f ∈ s.wal, e ∈ f.2)) :
     e.k ∈ visibleKeys (restart (crash s)) := by
   simp only [visibleKeys, List.mem_eraseDups, List.mem_map]
   exact ⟨e, restart_recovers s e h, rfl⟩
+
+/-- The segment index is the commit point: once `segments.idx` exists, a restart serves ONLY
+directories the index names — for EVERY durable state, so whatever a kill left behind (a
+directory whose files are incomplete, a complete one that was not registered yet, an unpublished
+compaction output, a retired input that was not reclaimed) is not read. Its events are still in
+the WAL: the flush worker drops WAL files only after the index entry is saved
+(`C01_durable_partial`). -/
+theorem C01_restart_serves_only_registered (s : Shard) (h : s.indexExists = true) :
+    ∀ id ∈ (restart (crash s)).live, ∃ ent ∈ s.index, ent.1 = id := by
+  intro id hid
+  have hl : (restart (crash s)).live
+      = published (crash s) (sortNat (((crash s).segs.map (·.1)).eraseDups)) := by simp [restart]
+  rw [hl] at hid
+  have := (mem_published.mp hid).2
+  simpa [Served, crash, h] using this
+
+/-- In every history without a kill, every directory is registered in the index except the one
+the flush worker has written and is about to register — so the commit point loses nothing:
+whatever is in a directory and not in the index is still in the WAL. -/
+theorem C01_index_is_commit_point (cap k : Nat) (ops : List Op) (h : ∀ o ∈ ops, o.noKill = true) :
+    Indexed (runOps (Shard.init cap k) ops) := by
+  have key : ∀ (ops : List Op) (s : Shard), Indexed s → (∀ o ∈ ops, o.noKill = true) → Indexed (runOps s ops) := by
+    intro ops
+    induction ops with
+    | nil => intro s hs _; exact hs
+    | cons o ops ih =>
+      intro s hs hall
+      have ho := hall o (by simp)
+      have hstep : Indexed (step s o) := by
+        cases o with
+        | store e => exact store_indexed e hs
+        | flushCmd => exact drain_indexed _ (rotate_indexed hs)
+        | flushStep => exact flushStep_indexed hs
+        | drain => exact drain_indexed _ hs
+        | crash => simp [Op.noKill] at ho
+        | shutdown => exact restart_indexed (shutdown_indexed hs) (drainAll_jobs_nil _)
+      simpa [runOps] using ih (step s o) hstep (fun x hx => hall x (by simp [hx]))
+  exact key ops _ (init_indexed cap k) h
+
+/-- Non-vacuity / the repaired behaviour: a kill right after the segment files were written
+(before the index entry) — the directory exists, the restart does not serve it, the WAL does. -/
+example :
+    let s := runOps (Shard.init 2 2) [.store ⟨1,0,0⟩, .store ⟨2,0,0⟩, .drain, .store ⟨3,0,0⟩, .store ⟨4,0,0⟩, .flushStep, .crash]
+    s.segs.map (·.1) = [0, 1] ∧ s.live = [0] ∧ visibleKeys s = [3, 4, 1, 2] ∧ count s = 4 := by
+  decide
 
 /-- PARTIAL durability: in every state whose open WAL file has not been unlinked, a STORE
 followed immediately by a crash and restart is visible. The hypothesis is exactly what the
@@ -50,8 +96,8 @@ theorem C01_durable_partial (cap k : Nat) (ops : List Op) (h : ∀ o ∈ ops, o.
   intro e he
   have hd := (runOps_durable ops (init_inv cap k) (init_aligned cap k) h).2.2.2 e he
   apply C01_restart_recovers_durable_state
-  rcases hd with ⟨p, hp, hpe⟩ | hw
-  · exact Or.inl ⟨p, hp, hpe⟩
+  rcases hd with ⟨p, hp, hpe, hr⟩ | hw
+  · exact Or.inl ⟨p, hp, hpe, reg_served hr⟩
   · exact Or.inr hw
 
 /-- Non-vacuity: a crash in the middle of a flush (files written, index not yet saved) with a
@@ -71,7 +117,7 @@ number of them, at any point — every event ever stored is produced by a scan a
 theorem C01_clean_shutdown (cap k : Nat) (ops : List Op) (h : ∀ o ∈ ops, o.noKill = true) :
     ∀ e ∈ storedEvents ops, e.k ∈ visibleKeys (runOps (Shard.init cap k) ops) := by
   intro e he
-  have hc := (runOps_clean ops (init_inv cap k) (init_inv3 cap k) h).2.2.2 e he
+  have hc := (runOps_clean ops (init_inv cap k) (init_inv3 cap k) (init_indexed cap k) h).2.2.2 e he
   simp only [visibleKeys, List.mem_eraseDups, List.mem_map]
   exact ⟨e, cover_scan hc, rfl⟩
 
